@@ -37,6 +37,13 @@ impl Marker {
     pub fn refuse_slot(&self) -> *mut u64 {
         unsafe { self.ptr.add(3) }
     }
+    pub fn bigreq_slot(&self) -> *mut u64 {
+        unsafe { self.ptr.add(4) }
+    }
+    /// largest allocation request (>= 1 MiB) made during the case in progress
+    pub fn bigreq(&self) -> u64 {
+        unsafe { std::ptr::read_volatile(self.ptr.add(4)) }
+    }
     pub fn refused(&self) -> u64 {
         unsafe { std::ptr::read_volatile(self.ptr.add(3)) }
     }
@@ -47,6 +54,7 @@ impl Marker {
             std::ptr::write_volatile(self.ptr.add(1), sub);
             std::ptr::write_volatile(self.ptr.add(2), 1);
             std::ptr::write_volatile(self.ptr.add(3), 0);
+            std::ptr::write_volatile(self.ptr.add(4), 0);
         }
     }
     pub fn idle(&self) {
@@ -166,6 +174,7 @@ pub fn worker_main(job: &dyn Job, a: &WorkerArgs) -> i32 {
     let t0 = Instant::now();
     let marker0 = Marker::open(&a.marker);
     crate::env::alloc::REFUSE_SLOT.store(marker0.refuse_slot(), Ordering::Relaxed);
+    crate::env::alloc::BIGREQ_SLOT.store(marker0.bigreq_slot(), Ordering::Relaxed);
     let mut ctx = WorkerCtx {
         marker: Marker::open(&a.marker),
         bag: VioBag::default(),
@@ -216,6 +225,8 @@ pub struct ShardedResult {
     pub samples: Vec<Value>,
     /// worker deaths: (kind, unit, sub)
     pub deaths: Vec<(String, u64, u64)>,
+    /// per death (same order): the largest allocation request (>= 1 MiB) the dying case had made
+    pub death_max_request: Vec<u64>,
     pub respawns: u64,
     pub capped: bool,
 }
@@ -350,6 +361,7 @@ pub fn run_sharded(exe: &str, base_args: &[String], nshards: usize, wall_cap: Du
                     // died outside a case: machinery problem, never a verdict
                     machinery_failure(&format!("worker {} died outside a case ({}), marker unit={} sub={}", s, kind, unit, sub));
                 }
+                res.death_max_request.push(m.bigreq());
                 res.deaths.push((kind, unit, sub));
                 res.respawns += 1;
                 if res.respawns > 20_000 {
